@@ -244,7 +244,7 @@ def part_convolve(ctx, cs):
     # the model's circular convolution is cubic in the padded size: only a few large pairs go through it
     big_model = set(rng.sample([p for p in pairs if 250 < p[0] + p[1] <= 760], 3))
     for k, (nsx, nsw) in enumerate(pairs):
-        big = nsx * (nsx + nsw) > 40000
+        big = nsx * (nsx + nsw) > 40000 and not thorough      # thorough: the full x-impulse basis for every pair
         if big:
             rows = sorted({0, 1, nsx // 2, nsx - 2, nsx - 1} & set(range(nsx)))
             x = np.eye(nsx, dtype=np.int64)[rows]
@@ -253,7 +253,7 @@ def part_convolve(ctx, cs):
         conv_check(ctx, cs, x, np.arange(1, nsw + 1, dtype=np.int64), "box-x-impulses", model=False)
         # generic contents on the same pair, through the model when affordable
         conv_check(ctx, cs, rand_ints(rng, nsx), rand_ints(rng, nsw), "box-generic",
-                   model=(nsx + nsw <= 64) or (k % 40 == 0 and nsx + nsw <= 250) or (nsx, nsw) in big_model)
+                   model=(nsx + nsw <= 64) or (k % (300 if thorough else 40) == 0 and nsx + nsw <= 250) or (nsx, nsw) in big_model)
     # (d) leading axes: 2-D x 1-D, 1-D x 2-D, 2-D x 2-D, 3-D x 1-D, 3-D x 3-D (the transform is along the last axis)
     for _ in range(60 if thorough else 20):
         nsx, nsw = rng.randrange(1, 30), rng.randrange(1, 30)
